@@ -3,6 +3,7 @@ package randdata
 import (
 	an "github.com/benoitkugler/gomacro/analysis"
 	gen "github.com/benoitkugler/gomacro/generator"
+	"github.com/benoitkugler/gomacro/generator/go/gounions"
 )
 
 // The generated random-data functions are *executed*: the source package, the file generated for it
@@ -89,14 +90,17 @@ func okFig(f Fig) bool {
 }
 `
 
-var c15Roots = []struct{ decl, check string }{
+var c15Roots = []struct {
+	decl, check string
+	roundTrip   bool // the value is also sent through the JSON round trip of C02
+}{
 	{ // enums, union, skipped and unexported fields
 		"type T struct {\n\tC Color\n\tM Mode\n\tS Shape\n\tSkip Color `gomacro-data:\"ignore\"`\n\tSkipS Shape `gomacro-data:\"ignore\"`\n\thidden Color\n\tLast Mode\n}\n",
 		`	vfAssert(okColor(v.C), "C15/enum-component-is-one-of-the-exported-constants")
 	vfAssert(vfAnd(okMode(v.M), okMode(v.Last)), "C15/enum-component-is-one-of-the-exported-constants")
 	vfAssert(okShape(v.S), "C15/union-component-is-a-non-nil-member-with-well-formed-content")
 	vfAssert(vfAnd(v.Skip == 0, vfAnd(v.SkipS == nil, v.hidden == 0)), "C15/skipped-and-unexported-fields-keep-their-zero-value")
-`},
+`, false},
 	{ // slices and fixed arrays (non square matrix), pointers
 		"type T struct {\n\tCs []Color\n\tGrid [2][3]Color\n\tTall [3][2]Mode\n\tOpt *Circle\n}\n",
 		`	vfAssert(len(v.Cs) > 0, "C15/slices-are-populated")
@@ -115,7 +119,7 @@ var c15Roots = []struct{ decl, check string }{
 	}
 	vfAssert(v.Opt != nil, "C15/pointer-components-point-to-well-formed-values")
 	vfAssert(okColor(v.Opt.C), "C15/pointer-components-point-to-well-formed-values")
-`},
+`, false},
 	{ // named types over enums and unions, nested struct, slice of unions
 		"type T struct {\n\tIn Inner\n\tL []Fig\n\tN Named\n}\n\ntype Inner struct {\n\tA [1]Color\n\tB Mode\n}\n\ntype Named []Color\n",
 		`	vfAssert(vfAnd(okColor(v.In.A[0]), okMode(v.In.B)), "C15/nested-struct-components-are-well-formed")
@@ -126,14 +130,19 @@ var c15Roots = []struct{ decl, check string }{
 	for _, c := range v.N {
 		vfAssert(okColor(c), "C15/slice-elements-are-well-formed")
 	}
-`},
+`, false},
 	{ // fixed array of unions (a member is a slice)
 		"type T struct {\n\tRow [2]Shape\n\tF Fig\n}\n",
 		`	for _, s := range v.Row {
 		vfAssert(okShape(s), "C15/fixed-array-elements-are-well-formed")
 	}
 	vfAssert(okFig(v.F), "C15/union-component-is-a-non-nil-member-with-well-formed-content")
-`},
+`, false},
+	{ // enums, unions, pointer, slices: also sent through the JSON round trip (generated union wrappers)
+		"type T struct {\n\tC Color\n\tM Mode\n\tS Shape\n\tF Fig\n\tCs []Color\n\tOpt *Circle\n\tN Named\n}\n\ntype Named []Color\n",
+		`	vfAssert(vfAnd(okColor(v.C), okMode(v.M)), "C15/enum-component-is-one-of-the-exported-constants")
+	vfAssert(vfAnd(okShape(v.S), okFig(v.F)), "C15/union-component-is-a-non-nil-member-with-well-formed-content")
+`, true},
 }
 
 // HC15_execRecursive: a recursive type. Known finding: the generated function recurses without bound.
@@ -154,10 +163,13 @@ func HC15_exec() {
 	root := c15Roots[vfChoice("root", len(c15Roots))]
 	src := c15Decls + "\n" + root.decl
 	pkg := vfTypeCheck("example.com/mod/p", []string{"/m/p/p.go"}, []string{src}, nil)
-	var text string
+	var text, wrappers string
 	panicked, _, msg := vfCatch(func() {
 		ana := an.NewAnalysisFromFile(pkg, "/m/p/p.go")
 		text = gen.WriteDeclarations(Generate(ana))
+		if root.roundTrip {
+			wrappers = gen.WriteDeclarations(gounions.Generate(ana))
+		}
 	})
 	vfObserve("generation", msg)
 	vfAssert(!panicked, "C15/catalogue-is-accepted-by-the-generator")
@@ -165,9 +177,16 @@ func HC15_exec() {
 		vfStop()
 	}
 	text = execFixImports(text, "example.com/mod/p")
-	check := "package p\n" + c15Helpers + "\nfunc Check() {\n\tvar v T\n\tpanicked, _, msg := vfCatch(func() { v = randT() })\n\tvfObserve(\"panic\", msg)\n" +
-		"\tvfAssert(!panicked, \"C15/generated-function-returns-without-panicking\")\n\tif panicked {\n\t\treturn\n\t}\n" + root.check + "}\n"
-	errs := vfExec("example.com/mod/p", []string{"/m/p/p.go", "/m/p/gen.go", "/m/p/check.go"}, []string{src, text, check}, nil, "Check")
+	// the value also survives the JSON round trip of C02 (through the generated union wrappers)
+	roundTrip := "\tdata, err := json.Marshal(v)\n\tvfAssert(err == nil, \"C15/random-value-survives-the-json-round-trip\")\n\tif err != nil {\n\t\treturn\n\t}\n" +
+		"\tvar back T\n\terr = json.Unmarshal(data, &back)\n\tvfAssert(err == nil, \"C15/random-value-survives-the-json-round-trip\")\n\tvfAssert(vfDeepEqual(v, back), \"C15/random-value-survives-the-json-round-trip\")\n"
+	check := "package p\n\nimport \"encoding/json\"\n" + c15Helpers + "\nfunc Check() {\n\tvar v T\n\tpanicked, _, msg := vfCatch(func() { v = randT() })\n\tvfObserve(\"panic\", msg)\n" +
+		"\tvfAssert(!panicked, \"C15/generated-function-returns-without-panicking\")\n\tif panicked {\n\t\treturn\n\t}\n" + root.check + map[bool]string{true: roundTrip, false: "\t_ = json.Marshal\n"}[root.roundTrip] + "}\n"
+	names, srcs := []string{"/m/p/p.go", "/m/p/gen.go", "/m/p/check.go"}, []string{src, text, check}
+	if root.roundTrip {
+		names, srcs = append(names, "/m/p/unions.go"), append(srcs, execFixImports(wrappers, "example.com/mod/p"))
+	}
+	errs := vfExec("example.com/mod/p", names, srcs, nil, "Check")
 	if len(errs) > 0 {
 		vfObserve("error", errs[0])
 	}
